@@ -20,7 +20,7 @@ from ..ref import ber, snmp, usm
 PROPERTY = "C05"
 
 SUBIDS = [0, 1, 39, 40, 127, 128, 255, 256, 16383, 16384, 2**21 - 1, 2**21, 2**28 - 1, 2**28, 2**32 - 1]
-IDS = [0, 1, 127, 128, 255, 256, 32767, 32768, 2**24 - 1, 2**24, 2**24 + 1, int(EPOCH), 2**31 - 2, 2**31 - 1]
+IDS = [0, 1, 127, 128, 255, 256, 32767, 32768, 2**24 - 1, 2**24, 2**24 + 1, int(EPOCH), 2**31 - 2, 2**31 - 1, 2**31, 2**31 + 1, 2**32 - 1, 2**32, 2**32 + 5]
 BULK = [0, 1, 127, 128, 255, 65535, 2**31 - 1]
 BASE = (1, 3, 6, 1, 2, 1, 1, 5, 0)
 
@@ -150,6 +150,25 @@ def run_case(env, op, clock_value):
     return judge(env, op, clock_value, exc)
 
 
+def expected_id(clock_value):
+    """The id a request built at this clock value carries: the clock's second
+    as long as that is an Integer32; beyond (2038 and later) whatever the
+    library's one id source derives from the clock - that it fits Integer32 is
+    the reference decoder's business, that responses are matched against the
+    same value is C07's."""
+    if int(clock_value) < 2**31:
+        return int(clock_value)
+    from puresnmp.util import get_request_id
+
+    saved = (CLOCK.now, CLOCK.reads, CLOCK.on_read, CLOCK.tick_per_read)
+    CLOCK.on_read, CLOCK.tick_per_read = None, 0.0
+    CLOCK.now = float(clock_value)
+    try:
+        return get_request_id()
+    finally:
+        CLOCK.now, CLOCK.reads, CLOCK.on_read, CLOCK.tick_per_read = saved
+
+
 def judge(env, op, clock_value, exc):
     out = []
     facts = {"version": env.version, "op": op, "clock": clock_value, "exception": ops.exc_sig(exc)}
@@ -190,7 +209,7 @@ def judge(env, op, clock_value, exc):
                 bad("msgflags-differ-from-level-plus-reportable", got=m["flags"], expected=level | 4)
             if m["sec_model"] != 3 or m["max_size"] < 484:
                 bad("bad-header-data", sec_model=m["sec_model"], max_size=m["max_size"])
-            if m["msg_id"] != int(clock_value):
+            if m["msg_id"] != expected_id(clock_value):
                 bad("msgID-differs-from-the-request-id-the-clock-produced", got=m["msg_id"])
             sp = m["usm"]
             if sp["engine_id"] != env.agent.engine_id or sp["user"] != env.user.name or sp["boots"] != env.agent.boots:
@@ -205,7 +224,7 @@ def judge(env, op, clock_value, exc):
                 bad("wrong-community", got=msg["community"])
             pdu = msg["pdu"]
         data_requests += 1
-        if pdu["request_id"] != int(clock_value):
+        if pdu["request_id"] != expected_id(clock_value):
             bad("request-id-differs-from-the-value-the-clock-produced", got=pdu["request_id"])
         if data_requests == 1:
             if pdu["tag"] != tag:
